@@ -299,5 +299,45 @@ theorem blackman_from_max_val_le (S peak : Nat → Rat) (L : Nat) (hL : 2 ≤ L)
 /-- Non-vacuity: area π/… replaced by rationals; guess 24, chosen duration 25. -/
 example : bmGuess 1 100 = 24 ∧ bmSearch bmIdealSum 1 100 5 = some 25 := by decide +kernel
 
+/-! ### Integrals (`Waveform.integral = sum(samples) * 1e-3`) -/
+
+/-- **Scaling scales the integral** (so negation negates it, division divides it). -/
+theorem integral_scale (w : Wf) (k : Rat) :
+    (w.scale k).integral? = w.integral?.map (· * k) := by
+  unfold Wf.integral?
+  rw [scale_samples?]
+  cases w.samples? with
+  | none => rfl
+  | some s =>
+    simp only [Option.map_some]
+    rw [sum_map_mul_right]; congr 1; ring
+
+/-- **The integral of a composite is the sum of the integrals of its parts** — for two parts
+(`CompositeWaveform(w1, w2)`), whenever both are defined. -/
+theorem integral_composite_two (w1 w2 : Wf) (i1 i2 : Rat)
+    (h1 : w1.integral? = some i1) (h2 : w2.integral? = some i2) :
+    (Wf.composite [w1, w2]).integral? = some (i1 + i2) := by
+  unfold Wf.integral? at *
+  simp only [Wf.samples?, samplesList?]
+  cases hs1 : w1.samples? with
+  | none => simp [hs1] at h1
+  | some s1 =>
+    cases hs2 : w2.samples? with
+    | none => simp [hs2] at h2
+    | some s2 =>
+      simp only [hs1, Option.map_some, Option.some.injEq] at h1
+      simp only [hs2, Option.map_some, Option.some.injEq] at h2
+      simp only [List.append_nil, Option.map_some, List.sum_append, Option.some.injEq]
+      rw [← h1, ← h2]; ring
+
+/-- A constant waveform integrates to `duration · value / 1000`. -/
+theorem integral_const (d : Nat) (v : Rat) :
+    (Wf.const d v).integral? = some ((d : Rat) * v / 1000) := by
+  simp [Wf.integral?, Wf.samples?, List.sum_replicate]
+
+example : (Wf.composite [.const 2 3, .ramp 3 0 1]).integral? = some ((3 : Rat) / 400) ∧
+    ((Wf.composite [.const 2 3, .ramp 3 0 1]).scale (-2)).integral? = some (-(3 : Rat) / 200) := by
+  decide +kernel
+
 end C16
 end Pulser
